@@ -49,7 +49,8 @@ def check_belt(h):
     gets = sorted([r for r in recs if r.got_t is not None], key=lambda r: tok_of[r.name].granted_seq)
     pos = {r.name: i for i, r in enumerate(recs)}
     seq = [pos[r.name] for r in gets]
-    if seq != sorted(seq):
+    if seq != sorted(seq) and not h.feat.get("cg"):
+        # (runs in which a granted retrieval was cancelled are judged by the binding model instead: C12 exit-order)
         h.violate("C12", "order", f"items entered in order {[r.name for r in recs]} but were handed to successive retrievals in order {[r.name for r in gets]}", feat=lab, extra=octx)
     offs = sorted([r for r in recs if r.avail_t is not None], key=lambda r: r.avail_seq)
     if [r.name for r in offs] != [r.name for r in recs][:len(offs)]:
